@@ -80,6 +80,8 @@ def run_case(case):
     if rng.random() < 0.5:
         fields.append(('obj', 'object'))
     typ = dict(fields)
+    r4 = boot.rng(case['seed'], 'C20', 'round4', case['idx'])
+    constrained = r4.random() < 0.3        # field constraints that the rows satisfy (validated by the dumper anyway)
     keymode = rng.choice(['explicit_single', 'explicit_composite', 'pk_single', 'pk_composite', 'explicit_number'])
     keys = ['k1'] if 'single' in keymode else ['k1', 'k2']
     if keymode == 'explicit_number':
@@ -99,7 +101,7 @@ def run_case(case):
     dbfile = os.path.abspath('t.db')
     engine = 'sqlite:///' + dbfile
     cfg = {'keys': keys, 'keymode': keymode, 'batch_size': batch, 'bloom': bloom, 'flags': flags,
-           'fields': fields, 'dumps': [], 'primaryKey_as_string': pk_as_string}
+           'fields': fields, 'dumps': [], 'primaryKey_as_string': pk_as_string, 'constraints': constrained}
     cov['config']['%s/batch%d/bloom%s' % (keymode, batch, bloom)] = 1
     model = []          # list of row dicts
     two_tables = rng.random() < 0.4      # a second resource dumped to its own table by the same step + a bystander
@@ -194,7 +196,19 @@ def run_case(case):
         kw = {'batch_size': batch, 'use_bloom_filter': bloom}
         if flags:
             kw.update(updated_column='_upd', updated_id_column='_upd_id')
-        steps = [lab.source('res', gen.schema_fields(fields), rows)]
+        sfields_ = gen.schema_fields(fields)
+        if constrained:
+            for f_ in sfields_:
+                if f_['name'] == 'k2':
+                    f_['constraints'] = {'enum': ['a', 'b', 'é']}
+                elif f_['name'] == 'day':
+                    f_['constraints'] = {'maximum': '2030-12-31'}
+                elif f_['name'] == 'arr':
+                    f_['constraints'] = {'maxLength': 3}
+                elif f_['name'] == 'val':
+                    f_['constraints'] = {'minimum': -1000}
+            cov['config']['field_constraints_satisfied_by_the_rows'] = 1
+        steps = [lab.source('res', sfields_, rows)]
         if use_pk:
             steps.append(d.set_primary_key(list(keys)))
             if pk_as_string:
@@ -231,7 +245,12 @@ def run_case(case):
             add('dump_failed', 'dump %d (%s, %d rows) failed: %s' % (di, mode, len(rows), out.errstr()),
                 'dump_failed/%s' % mode)
             break
-        # downstream rows
+        # downstream rows: every key they carry is a declared field (the flags included)
+        declared_ = [f_['name'] for f_ in out.dp['resources'][0]['schema']['fields']]
+        extra_ = sorted({k_ for r_ in out.results[0] for k_ in r_} - set(declared_))
+        if extra_:
+            add('undeclared_downstream_keys', 'dump %d: rows leave the step with keys %r that the emitted schema does not '
+                'declare' % (di, extra_), 'undeclared_downstream_keys')
         drows = out.results[0]
         if len(drows) != len(rows):
             add('downstream_count', 'dump %d: %d rows downstream, %d entered' % (di, len(drows), len(rows)),
